@@ -11,7 +11,8 @@ Layout, comments, quoting and line breaks live inside nom and are NOT decided.
 import re
 import mirsmt, mirexec
 from mirsmt import Untranslatable, pc_term
-from mirblocks import enum_variants, m_result_opq, parser_clause_wiring, replay_negation
+from mirblocks import enum_variants, m_result_opq, parser_clause_wiring, replay_negation, iterations, disc
+from miragg import calls
 
 # function -> (spellings offered through tag(), spellings offered through char(), token the alternative is mapped to)
 KEYWORDS = {
@@ -241,6 +242,10 @@ def replay_spellings(a):
         ("rule r {\n  AWS::SNS::Topic {\n    Properties.x == 1\n  }\n}\n", "rule r {\n  Resources.*[ Type == 'AWS::SNS::Topic' ] {\n    Properties.x == 1\n  }\n}\n"),
         ("rule r {\n  a == 1\n  a >= 0\n}\n", "rule r {\n\n  a == 1   # first\n\n  # a comment line\n  a >= 0\n}\n"),
         ("a == 1\n", "rule default {\n  a == 1\n}\n"),
+        ("a == 2 or a == 1\n", "rule default {\n  a == 2 or a == 1\n}\n"),
+        ("a == 1 or a == 2\na >= 1\n", "rule default {\n  a == 1 or a == 2\n  a >= 1\n}\n"),
+        ("a == 2 |OR| a == 3\n", "rule default {\n  a == 2 or a == 3\n}\n"),
+        ("when a == 1 {\n  a == 2 or a == 1\n}\n", "rule default {\n  when a == 1 {\n    a == 2 or a == 1\n  }\n}\n"),
     ]
     out, tried = [], []
     for left, right in pairs:
@@ -316,6 +321,79 @@ def index_spellings_agree(a):
         a.candidates.append(item)
 
 
+def rules_file_sorting(a):
+    """C14 (`clauses outside any rule behave as the body of one implicit default rule`): how rules_file sorts the parsed top-level
+    expressions. One iteration, the expression's kind symbolic: a rule / parameterised rule / assignment goes - itself - to its own list;
+    a top-level clause line (its `or` alternatives together), a type-block line and a when block each become exactly ONE conjunction entry
+    of the default rule (one `push` onto the list of conjunctions; never an `extend`, which would turn `a or b` into `a` and `b`)"""
+    EX = enum_variants(a.src, "rules/parser.rs", "Exprs")
+    ex = a.exec(r"(?:(?:rules::)?parser::)?rules_file",
+                {"next": mirexec.m_iter_next, "into_iter": mirexec.m_new_iter, "with_capacity": lambda ex, av: ex.opq(),
+                 "fold_many1": lambda ex, av: ex.opq(), "call_mut": m_result_opq, "parse": m_result_opq, "is_empty": lambda ex, av: ex.havoc("bool"),
+                 "box_assume_init_into_vec_unsafe": mirexec.m_vec_from_array},
+                log=("push", "extend", "map", "collect", "append", "insert", "with_capacity"), unroll=1, max_paths=20000, deepen=False)
+    a.fns.append("rules::parser::rules_file (sorting of the top-level expressions)")
+    bad, nexpr = [], 0
+    for p in ex.paths:
+        if p.outcome != "return":
+            continue
+        caps = {str(e[5]).split("::with_capacity")[0]: e[3] for e in calls(p, "with_capacity")}
+        lists = {"default": next((v for k, v in caps.items() if "<Vec<" in k and "RuleClause" in k), None),
+                 "rules": next((v for k, v in caps.items() if k.startswith("Vec::<exprs::Rule<")), None),
+                 "prules": next((v for k, v in caps.items() if "ParameterizedRule" in k), None),
+                 "lets": next((v for k, v in caps.items() if "LetExpr" in k), None)}
+        its = [(k, el, tag, i) for k, el, tag, i in iterations(ex, p) if "IntoIter<Exprs" in str(p.events[i][5])]
+        if not its:
+            continue
+        idx = [i for _k, _e, _t, i in its] + [len(p.events)]
+        parts, probs = [], []
+        for n, (k, el, tag, i0) in enumerate(its):
+            if f"(= {tag} 1)" not in p.pc or el is None or el[0] != "opaque":
+                continue
+            nexpr += 1
+            seg = [e for i, e in enumerate(p.events) if i0 < i < idx[n + 1] and e[0] == "call"]
+            adds = [e for e in seg if e[1] in ("push", "extend", "append", "insert") and e[2] and e[2][0] in lists.values()]
+            if len(adds) != 1 or adds[0][1] != "push" or len(adds[0][2]) != 2:
+                probs.append("an expression is not added by exactly one push onto one of the four lists")
+                continue
+            tgt, val = adds[0][2][0], adds[0][2][1]
+            d = disc(ex, el)
+            alts = []
+            for var, lst in (("Rule", "rules"), ("ParameterizedRule", "prules"), ("Assignment", "lets")):
+                if var in EX:
+                    hit = tgt == lists[lst] and val == ex.proj.get((el[1], f"as {var}.0"))
+                    alts.append(f"(and (= {d} {EX.index(var)}) {'true' if hit else 'false'})")
+            maps = [e for e in seg if e[1] == "map"]
+            cols = [e for e in seg if e[1] == "collect"]
+            for var, ctor in (("DefaultClause", "RuleClause::Clause"), ("DefaultTypeBlock", "RuleClause::TypeBlock")):
+                if var in EX:
+                    pay = ex.proj.get((el[1], f"as {var}.0"))
+                    # one entry = collect(map(into_iter(<the line's alternatives>), <constructor>))
+                    hit = (tgt == lists["default"] and len(maps) == 1 and len(cols) == 1 and val == cols[0][3] and cols[0][2][0] == maps[0][3]
+                           and pay is not None and ex.iter_src.get(maps[0][2][0][1], maps[0][2][0]) == pay
+                           and ctor.split("::")[1] + "}" in str(maps[0][5]).replace(" ", ""))
+                    alts.append(f"(and (= {d} {EX.index(var)}) {'true' if hit else 'false'})")
+            if "DefaultWhenBlock" in EX:
+                w, b = ex.proj.get((el[1], "as DefaultWhenBlock.0")), ex.proj.get((el[1], "as DefaultWhenBlock.1"))
+                hit = (tgt == lists["default"] and val[0] == "array" and len(val[1]) == 1 and val[1][0][0] == "variant" and val[1][0][2] == "WhenBlock"
+                       and val[1][0][3] == [w, b])
+                alts.append(f"(and (= {d} {EX.index('DefaultWhenBlock')}) {'true' if hit else 'false'})")
+            import os
+            if os.environ.get("DBG_RF"):
+                print("RF", [x[-6:] for x in alts], adds[0][1], str(val)[:80], [str(m[5])[-60:] for m in maps])
+            parts.append("(or " + " ".join(alts) + ")")
+        good = "false" if probs else "(and true " + " ".join(parts) + ")"
+        bad.append(f"(and {pc_term(p.pc)} (not {good}))")
+    c = a.discharge("parser/rules_file/one-entry-per-top-level-line", ex, bad,
+                    f"rules_file, one top-level expression of symbolic kind ({nexpr} expression visits): rules, parameterised rules and assignments are "
+                    "pushed - themselves - onto their own lists; a clause line / type-block line becomes ONE conjunction entry of the default rule "
+                    "holding all its `or` alternatives (collect of map(<alternatives>, constructor)), a when block one entry holding that block")
+    if c:
+        c["replay"] = replay_spellings(a)
+        c["reproduced"] = c["replay"].get("reproduced", False)
+        a.candidates.append(c)
+
+
 from mirblocks import type_block, guard_block
 
 
@@ -326,4 +404,4 @@ def this_and_index_forms(a):
     mirquery.q_dispatch(a)
 
 
-SITES = {"C14": [keyword_tables, type_block_desugar, parser_clause_wiring, quoting_wiring, type_block, guard_block, this_and_index_forms, index_spellings_agree]}
+SITES = {"C14": [keyword_tables, type_block_desugar, parser_clause_wiring, quoting_wiring, type_block, guard_block, this_and_index_forms, index_spellings_agree, rules_file_sorting]}
